@@ -826,6 +826,8 @@ func c04(c *Ctx) (*report.Result, error) {
 	} else if err != nil {
 		res.Undec("O4.15", "keep-alive obligations of O3.4", "", err.Error())
 	}
+	res.RuleDoc["O4.17"] = "what the sender translates is the target's overall confirmation: the watermark handed to AggregateUpTo in recvAck is the top-level InclusiveLowWatermark of the SyncReplicationState just received - not a per-priority lane's watermark (one lane can be ahead of a task the other has not applied) and not a value picked by a helper; everything at or below it is acknowledged and discarded"
+	checkAckWatermarkSource(c, res, "O4.17")
 	res.RuleDoc["O4.16"] = "an acknowledgement forwarded between proxy nodes travels on the stream of its own (target shard, source shard) pair (same analysis as O1.9 / O9.4): the owner of the source shard credits an incoming ack to the target of the stream it arrives on, so an ack that falls back to another target's stream - the natural shortcut when its own stream has just broken - is credited to a target that has not confirmed, and the aggregate then acknowledges that target's unconfirmed tasks"
 	checkIntraSenders(c, res, "O4.16")
 	res.RuleDoc["O4.10"] = "no swallowed error in the files the mechanism lives in: no function returns a nil error on a path on which an error obtained from a call is known to be non-nil (io.EOF from a stream Recv, the normal end of a receive loop, is the one accepted idiom)"
